@@ -9,7 +9,7 @@ func init() {
 			"exactly the coins added to the pay-out list are added to the gauge's distributed total, which is booked together with one filled epoch on every successful distribution; pay-outs are sent from the incentives module to the index-aligned receiver list; upcoming gauges become active at their start time before distribution.",
 		NotCovered:  []string{"sum over epochs ≤ deposit and module balance ≥ remainders over histories", "group gauges / volume splitting", "concentrated no-lock gauges' emission inside CL (C08)"},
 		Assumptions: []string{"bank SendCoinsFromModuleToManyAccounts pays inputs[i] to addrs[i]"},
-		MinObl:      32,
+		MinObl:      40,
 		Run:         runC09,
 	})
 }
@@ -46,7 +46,19 @@ func runC09(c *rules.Ctx) {
 	const AL = "x/incentives/keeper.distributionInfo.addLockRewards"
 	c.HasCall(AL, "append", []string{"d.idToDecodedRewardReceiverAddr", "sdk.AccAddressFromBech32(rewardReceiver)#0"}, false, "a new owner appends its decoded receiver…", "addr")
 	c.HasCall(AL, "append", []string{"d.idToDistrCoins", "rewards"}, false, "…and its coins at the same index", "coins")
+	// ---- minimum-value filter: a lock's share is skipped only when it is strictly below the minimum
+	c.Let("AMT", "sdkmath.NewIntFromBigInt(_)")
+	c.BranchOn(D, "lt({AMT}, minDistrValueCache.minDistrValue.Amount)", []string{"le({AMT}, _)"}, "same denom as the minimum: skipped only when strictly below it")
+	c.BranchOn(D, "lt({AMT}, poolmanagertypes.PoolModuleI.CalcOutAmtGivenIn(...)#0.Amount)", []string{"le({AMT}, _)"}, "other denom, first use: skipped only when strictly below the converted minimum")
+	c.BranchOn(D, "lt({AMT}, lookup(minDistrValueCache.denomToMinValueMap, elem(_).Denom)#0)", []string{"le({AMT}, _)"}, "other denom, cached: skipped only when strictly below the cached converted minimum (the same test as on first use)")
+	// ---- a failed pay-out fails the whole distribution (nothing is booked for coins nobody received)
+	const DI = K + "Distribute"
+	c.CheckedCall(DI, "incentiveskeeper.Keeper.doDistributionSends", []string{"k", "ctx", "_"}, "the batched sends happen on every successful distribution and their failure fails it", "")
+	c.CheckedCallOpt(DI, "incentiveskeeper.Keeper.distributeInternal", nil, "a failing gauge fails the distribution", "", false)
+	c.CheckedCallOpt(DI, "incentiveskeeper.Keeper.distributeSyntheticInternal", nil, "a failing synthetic gauge fails the distribution", "", false)
+	c.Order(DI, "incentiveskeeper.Keeper.doDistributionSends", "incentiveskeeper.Keeper.checkFinishDistribution", "gauges are finished only after the pay-outs were made")
 	// epoch hook
+	c.Returns("x/incentives/keeper.Hooks.AfterEpochEnd", 0, "incentiveskeeper.Keeper.AfterEpochEnd(h.k,ctx,epochIdentifier,epochNumber)", "the epochs module sees the keeper's verdict: the hook wrapper returns the keeper's error unchanged (a half-done distribution is rolled back)", "")
 	const H = K + "AfterEpochEnd"
 	c.OnlyWhen(H, "incentiveskeeper.Keeper.moveUpcomingGaugeToActiveGauge", "not(lt(sdk.Context.BlockTime(ctx), elem(_).StartTime))", "a gauge becomes active only once its start time has been reached")
 	c.NeverAfter(H, "incentiveskeeper.Keeper.Distribute", "incentiveskeeper.Keeper.moveUpcomingGaugeToActiveGauge", "activation happens before distribution in the same epoch")
